@@ -2,7 +2,8 @@
 import re
 import t2t, corr, semrun, gen, impl
 
-OBLIGATIONS = ['Yalafi.C08_latexError_mark', 'Yalafi.C08_latexError_inRange', 'Yalafi.C08_lineCol', 'Yalafi.C08_scanVerb_mark', 'Yalafi.C08_scanVerbatim_mark']
+OBLIGATIONS = ['Yalafi.C08_latexError_mark', 'Yalafi.C08_latexError_inRange', 'Yalafi.C08_lineCol', 'Yalafi.C08_scanVerb_mark', 'Yalafi.C08_scanVerbatim_mark',
+               'Yalafi.C08_verb_unterminated', 'Yalafi.C08_verb_segments']
 
 SILENT = {'c_group', 'c_unknown', 'c_vanish', 'c_ref', 'c_inline_math', 'c_verb', 'c_cite', 'c_footnote', 'c_heading', 'c_itemize',
           'c_display', 'c_env_unknown', 'c_verbatim', 'c_skip', 'c_newcommand', 'c_usermacro', 'c_special', 'c_symbol', 'c_lt',
